@@ -76,21 +76,33 @@ example : NotServedForProfile { exReq with dev := .authFail } ∧ NotServedForPr
   unfold NotServedForProfile
   exact Or.inr (Or.inr (Or.inr (Or.inr (Or.inr (Or.inl (by decide))))))
 
+/-- A response code that fits a DNS message: 4 header bits and 8 extended bits in the OPT record
+(`miekg/dns` refuses to pack anything larger). -/
+def WireRcode (rc : Nat) : Prop := rc ≤ 4095
+
+/-- `uint16(resp.Rcode)` is the identity on every RCODE a message can carry, the extended ones
+(BADVERS 16 … BADCOOKIE 23 … 4095) included. -/
+theorem rcode16_wire (rc : Nat) (h : WireRcode rc) : rcode16 rc = rc := by
+  unfold WireRcode at h; unfold rcode16; omega
+
 /-- **entry_describes_request.** The entry's name, type, protocol, request ID and time are the
 request's own; its verdicts are the results the filter returned for this request (no response
 verdict after a CNAME rewrite); its response code is that of the response computed for this
-request, which is also the code of whatever response the client's writer received; a logged
-address is the request's remote address.  Debug (CHAOS) queries and queries whose processing
-failed are not logged. -/
+request (through the `uint16` conversion of the code: exactly that code whenever it fits a DNS
+message, extended RCODEs included), which is also the code of whatever response the client's writer
+received; a logged address is the request's remote address.  Debug (CHAOS) queries and queries whose
+processing failed are not logged. -/
 theorem entry_describes_request (q : Req) (e : Entry) (h : (serve q).log = some e) :
     e.name = q.name ∧ e.qtype = q.qtype ∧ e.proto = q.proto ∧ e.reqId = q.reqId ∧ e.timeMs = q.startMs ∧
-    e.reqRes = q.reqRes ∧ e.respRes = respResOf q ∧ e.rcode = (filteredResp q).rcode ∧
+    e.reqRes = q.reqRes ∧ e.respRes = respResOf q ∧ e.rcode = rcode16 (filteredResp q).rcode ∧
+    (WireRcode (filteredResp q).rcode → e.rcode = (filteredResp q).rcode) ∧
     (∀ a, e.ip = some a → a = q.remoteIP) ∧
-    (∀ r, (serve q).resp = some r → r.rcode = e.rcode) ∧
+    (∀ r, (serve q).resp = some r → rcode16 r.rcode = e.rcode ∧ (WireRcode r.rcode → r.rcode = e.rcode)) ∧
     q.debug = false ∧ q.ctxErr = false ∧ q.upErr = false ∧ q.special = false := by
   obtain ⟨p, d, hd, hq, _, _, _, h6, h7, h8, h9, hbe, h10, h11, h12, h13, h14, h15, h16, h17, h18, h19, h20, h21, h22, h23⟩ :=
     serve_log_inv q e h
-  refine ⟨h15, h16, h17, h21, h22, h18, h19, h20, h23, ?_, h12, h13, h14, h11⟩
+  refine ⟨h15, h16, h17, h21, h22, h18, h19, h20, ?_, h23, ?_, h12, h13, h14, h11⟩
+  · intro hw; rw [h20, rcode16_wire _ hw]
   intro r hr
   rw [h20]
   simp only [serve, h6, h7, h8, h9, hbe, h10, h11, hd, initialmw, mainmw, h12, h13, h14, record, DevRes.data, hq] at hr
@@ -98,6 +110,16 @@ theorem entry_describes_request (q : Req) (e : Entry) (h : (serve q).log = some 
   · simp at hr
   · simp at hr
     rw [← hr.2]
+    exact ⟨rfl, fun hw => (rcode16_wire _ hw).symm⟩
+
+/-- Non-vacuity of the response-code clause at the points a four-bit reading of the RCODE gets wrong:
+an upstream answer with BADCOOKIE (23) resp. the largest extended code is logged with exactly that code;
+only a code no message can carry is cut to 16 bits. -/
+example : (serve { exReq with reqRes := FRes.nil, orig := ⟨23, false, .none⟩ }).log.map (·.rcode) = some 23 ∧
+    (serve { exReq with reqRes := FRes.nil, orig := ⟨4095, false, .none⟩ }).log.map (·.rcode) = some 4095 ∧
+    (serve { exReq with reqRes := FRes.nil, orig := ⟨65539, false, .none⟩ }).log.map (·.rcode) = some 3 ∧
+    WireRcode 23 := by
+  refine ⟨by decide, by decide, by decide, by unfold WireRcode; omega⟩
 
 example : (serve exReq).log.map (fun e => (e.name, e.qtype, e.proto, e.rcode, (resultData e.reqRes e.respRes).1)) =
     some ([97, 46], 1, 8, 0, 2) := by decide
@@ -146,19 +168,20 @@ particular no line feed or carriage return — for any input byte string. -/
 theorem esc_no_control_bytes (s : Str) : ∀ c ∈ esc s, 32 ≤ c := esc_ge s
 
 /-- **file_is_lines.** For every set of concurrent `Write` calls and EVERY schedule of their steps
-(pool hand-outs included; `sync.Pool` may hand out any pooled buffer or allocate), with the append
+(pool hand-outs included; `sync.Pool` may hand out any pooled buffer or allocate; any `Write` may fail
+at `os.OpenFile` and return its buffer without having written), with the append
 of one buffer atomic: the file is the concatenation of the complete records of exactly the writers
 that have performed their append, each once, in append order; nothing else is ever in the file. -/
 theorem file_is_lines (J : Jobs) (ops : List (Nat × Option Nat)) :
     let s := FS.run J {} ops
-    s.file = (s.order.map (lineOf J)).flatten ∧ s.order.Nodup ∧ (∀ i, i ∈ s.order ↔ 4 ≤ s.pc i) ∧
+    s.file = (s.order.map (lineOf J)).flatten ∧ s.order.Nodup ∧ (∀ i, i ∈ s.order ↔ (s.pc i = 4 ∨ s.pc i = 5)) ∧
       (∀ i ∈ s.order, ∃ job, J i = some job ∧ lineOf J i = encodeLine job.1 job.2) := by
   intro s
   have h := inv_run J ops {} (inv_init J)
   refine ⟨h.file, h.ordND, h.ord, ?_⟩
   intro i hi
   have h4 := (h.ord i).mp hi
-  have hs := h.started i (by omega)
+  have hs := h.started i (by rcases h4 with h4 | h4 <;> rw [h4] <;> decide)
   cases hj : J i with
   | none => simp [hj] at hs
   | some job => exact ⟨job, rfl, lineOf_some J i job hj⟩
@@ -170,6 +193,33 @@ example :
     let s := FS.run J {} [(0, none), (1, none), (0, none), (1, none), (1, none), (0, none), (1, none), (0, none),
       (0, none), (2, some 0), (2, none), (2, none), (2, none), (1, none), (2, none)]
     s.order = [1, 0, 2] ∧ s.nbufs = 2 ∧ s.pc 2 = 5 ∧ s.hold 2 = 0 := by
+  decide
+
+/-- **failed_writes_leave_nothing.** Under every schedule: a `Write` that failed to open the file
+(states 6, 7) has no record in the file — and never will (`order` only grows by appends) — while every
+`Write` that returned successfully (state 5) has its record there, once; the buffers the failed calls
+return to the pool do not damage later records (`file_is_lines` holds for the same runs). -/
+theorem failed_writes_leave_nothing (J : Jobs) (ops : List (Nat × Option Nat)) :
+    let s := FS.run J {} ops
+    (∀ i, s.pc i = 6 ∨ s.pc i = 7 → i ∉ s.order) ∧ (∀ i, s.pc i = 5 → i ∈ s.order) ∧ s.order.Nodup ∧
+      s.file = (s.order.map (lineOf J)).flatten := by
+  intro s
+  obtain ⟨hf, hnd, hord, _⟩ := file_is_lines J ops
+  refine ⟨?_, ?_, hnd, hf⟩
+  · intro i hi hm
+    have h45 := (hord i).mp hm
+    rcases hi with hi | hi <;> rcases h45 with h45 | h45 <;> rw [hi] at h45 <;> cases h45
+  · intro i hi
+    exact (hord i).mpr (Or.inr hi)
+
+/-- Non-vacuity: writer 0 fails to open the file and returns its buffer; writer 1 gets that very
+buffer and writes; writer 2 fails while 1 is between encoding and appending.  The file is exactly
+writer 1's record (`order = [1]` and `file_is_lines`). -/
+example :
+    let J : Jobs := fun i => if i < 3 then some (exEntry, i) else none
+    let s := FS.run J {} [(0, none), (0, none), (0, some 0), (0, none), (1, some 0), (1, none), (1, none),
+      (2, none), (2, none), (2, some 1), (1, none), (2, none), (1, none)]
+    s.pc 0 = 7 ∧ s.pc 2 = 7 ∧ s.pc 1 = 5 ∧ s.hold 1 = 0 ∧ s.hold 2 = 1 ∧ s.nbufs = 2 ∧ s.order = [1] := by
   decide
 
 /-- **file_splits_into_records.** Splitting the file at line feeds gives back exactly the record
@@ -273,6 +323,45 @@ theorem served_line_privacy (q : Req) (e : Entry) (rn : Nat) (p : Prof) (d : Str
 example : ∃ toks, lexLine (encodeLine ((serve exReq).log.getD exEntry) 3) = some toks ∧ ∀ t, ([105, 112], t) ∉ toks :=
   ⟨_, line_integrity _ _, served_line_privacy exReq _ 3 exProf [100] (by decide) rfl rfl _ (line_integrity _ _)⟩
 
+/-- **first_address_record_decides.** `ipFromAnswer` against a declarative reading of "the first IP
+address of the answer": records of other types before the first A / AAAA / HTTPS record are skipped,
+and nothing after that record matters — not even a later record with a usable address when the first
+one has none. -/
+theorem first_address_record_decides (pre post : List RR) (r : RR) (hpre : ∀ x ∈ pre, x = RR.other)
+    (hr : r ≠ RR.other) : ipFromAnswer (pre ++ r :: post) = ipFromAnswer [r] := by
+  induction pre with
+  | nil => cases r <;> simp_all [ipFromAnswer]
+  | cons x t ih =>
+    have hx : x = RR.other := hpre x (by simp)
+    subst hx
+    simpa [ipFromAnswer] using ih (fun y hy => hpre y (List.mem_cons_of_mem _ hy))
+
+/-- **no_address_record_no_ip.** An answer section without A, AAAA and HTTPS records has no address. -/
+theorem no_address_record_no_ip (ans : List RR) (h : ∀ x ∈ ans, x = RR.other) : ipFromAnswer ans = IPKind.none := by
+  induction ans with
+  | nil => rfl
+  | cons x t ih =>
+    have hx : x = RR.other := h x (by simp)
+    subst hx
+    simpa [ipFromAnswer] using ih (fun y hy => h y (List.mem_cons_of_mem _ hy))
+
+/-- **https_first_hint_decides.** Within an HTTPS record the first `ipv4hint`/`ipv6hint` with at
+least one address decides, by its first address; parameters before it (other keys, empty hints) and
+everything after it are irrelevant. -/
+theorem https_first_hint_decides (pre post : List KV) (kv : KV) (h : IPVal) (t : List IPVal)
+    (hpre : ∀ x ∈ pre, x = KV.other ∨ x = KV.hint4 [] ∨ x = KV.hint6 [])
+    (hkv : kv = KV.hint4 (h :: t) ∨ kv = KV.hint6 (h :: t)) :
+    ipFromKVs (pre ++ kv :: post) = ipOfVal h := by
+  induction pre with
+  | nil => rcases hkv with rfl | rfl <;> simp [ipFromKVs]
+  | cons x r ih =>
+    have ih' := ih (fun y hy => hpre y (List.mem_cons_of_mem _ hy))
+    rcases hpre x (by simp) with rfl | rfl | rfl <;> simpa [ipFromKVs] using ih'
+
+example : ipFromAnswer [.other, .https [.other, .hint4 [], .hint6 [.unspec, .addr], .hint4 [.addr]], .a .addr] = .unspec ∧
+    ipFromAnswer [.other, .a .bad, .aaaa .addr] = .none ∧ ipFromAnswer [.https [], .a .addr] = .none ∧
+    ipFromAnswer [.other, .other, .aaaa .addr] = .addr := by decide
+
 /-- Queries that reach the main middleware's recording step. -/
 def Served (q : Req) : Prop :=
   q.port0 = false ∧ q.globBlockIP = false ∧ q.globBlockHost = false ∧ q.profBlock = false ∧ q.badECS = false ∧
@@ -361,11 +450,13 @@ end Agd.Record
 #print axioms Agd.Record.billing_only_if_profile
 #print axioms Agd.Record.anonymous_dropped_blocked_never_logged
 #print axioms Agd.Record.entry_describes_request
+#print axioms Agd.Record.rcode16_wire
 #print axioms Agd.Record.result_code_table
 #print axioms Agd.Record.line_is_one_line
 #print axioms Agd.Record.esc_no_control_bytes
 #print axioms Agd.Record.file_is_lines
 #print axioms Agd.Record.file_splits_into_records
+#print axioms Agd.Record.failed_writes_leave_nothing
 #print axioms Agd.Record.line_integrity
 #print axioms Agd.Record.line_ip_member_iff
 #print axioms Agd.Record.line_describes_request
@@ -374,6 +465,9 @@ end Agd.Record
 #print axioms Agd.Record.log_iff
 #print axioms Agd.Record.unidentified_never_logged
 #print axioms Agd.Record.file_lines_all_read
+#print axioms Agd.Record.first_address_record_decides
+#print axioms Agd.Record.no_address_record_no_ip
+#print axioms Agd.Record.https_first_hint_decides
 #print axioms Agd.Tie.TrC15.translation_complete
 #print axioms Agd.Tie.TrC15.convertElapsed_tr
 #print axioms Agd.Tie.TrC15.toResultCode_tr
@@ -385,6 +479,9 @@ end Agd.Record
 #print axioms Agd.Tie.TrC15.filteringData_blocked_tr
 #print axioms Agd.Tie.TrC15.responseData_nil
 #print axioms Agd.Tie.TrC15.responseData_some
+#print axioms Agd.Tie.TrC15.responseData_rcode_tr
+#print axioms Agd.Tie.TrC15.ipFromHTTPSRRKV_spec
+#print axioms Agd.Tie.TrC15.ipFromHTTPSRRKV_tr
 #print axioms Agd.Tie.TrC15.responseCountry_na
 #print axioms Agd.Tie.TrC15.responseCountry_geo
 #print axioms Agd.Tie.TrC15.anonymous_only_rulestat
